@@ -113,6 +113,8 @@ impl<T: TokenStream> ParserBase<T> {
     }
 
     pub(crate) fn error(&mut self, message: impl Into<String>) {
+        #[cfg(feature = "verif")]
+        crate::verif::step();
         let range = TextRange::new(
             self.current_range
                 .start
